@@ -30,6 +30,17 @@ pub fn candidates(m: &M, xl: Option<&XLin>, rng: &mut ChaCha8Rng) -> Vec<Vec<Q>>
                 c.push(qi(*a as i64 - 1));
                 c.push(qi(*b_ as i64 + 1));
                 c.push(qi(*a as i64) + qf(1, 2));
+                // the ends of the range the compiler published, and their neighbours
+                if let Some(xl) = xl {
+                    if let Some(j) = xl.index_of(&m.names[i]) {
+                        for e in [&xl.vars[j].lo, &xl.vars[j].hi].into_iter().flatten() {
+                            let f = e.floor();
+                            for d in -1..=1 {
+                                c.push(&f + qi(d));
+                            }
+                        }
+                    }
+                }
             }
             _ => {
                 let mut anchors: Vec<Q> = vec![];
